@@ -6,6 +6,15 @@ stdin : {"junk_import": int, "junk_parse": int, "gc": bool, "junk_seed": int,
 stdout: one line  C10RESULT <json>  where json = {"renderings": [[rendering, ...per repeat] ...per program],
                                                    "hashseed": ..., "malloc": ...}
 A rendering is a list of [code, lineno, col, message] (module-name tokens normalised) or [["<exception>", ...]].
+
+Isolated groups (history experiments whose leaked state may be the interpreter's own, e.g. sys.modules):
+stdin additionally  "groups": [[{"src","mode"}, ...], ...], "probe_modules": [dotted names]
+stdout additionally "group_renderings": [[rendering per program] per group], "preloaded": [those probe modules that were
+already in sys.modules after importing pyanalyze, before anything was checked].  Every group is checked in its own
+image of THIS interpreter, forked after pyanalyze was imported and the (still unused) Checker of each configuration
+was built, before any program was checked: all images start from the same state (same hash seed, same heap, same
+untouched Checker), so the only thing that differs between the groups [P] and [H, P] is the history.  An entry {"op": "clear-typing-caches"} in a group empties the caches of the
+typing module at that point (attribution experiment: state of the interpreter's library, not of pyanalyze).
 """
 from __future__ import annotations
 
@@ -65,6 +74,55 @@ def render(result) -> list:
     return out
 
 
+def clear_typing_caches() -> None:
+    """Empty the caches of the typing module (List[X], Union[X, Y], ... return the object made for the first EQUAL
+    argument list, and `int | str == str | int`): what CPython's own test-suite does between tests."""
+    import typing
+
+    for cleanup in getattr(typing, "_cleanups", []):
+        cleanup()
+
+
+def check_one(prog, harness) -> list:
+    if prog.get("op") == "clear-typing-caches":
+        clear_typing_caches()
+        return [["<op>", None, None, "clear-typing-caches"]]
+    try:
+        with contextlib.redirect_stdout(io.StringIO()):
+            res = harness.run(prog["src"], mode=prog.get("mode", "tests"))
+        return render(res)
+    except BaseException as e:  # noqa: BLE001  (import-time failure of the program itself)
+        if isinstance(e, (KeyboardInterrupt, SystemExit)):
+            raise
+        return [["<import-failed>", None, None, harness.normalise_text(f"{type(e).__name__}: {str(e)[:300]}")]]
+
+
+def run_group_forked(group: list, harness):
+    """Check the programs of `group`, in order, on one Checker, in a forked image of this interpreter.
+    -> list of renderings, or None if the image died."""
+    sys.stdout.flush()
+    sys.stderr.flush()
+    r, w = os.pipe()
+    pid = os.fork()
+    if pid == 0:
+        status = 1
+        try:
+            os.close(r)
+            data = json.dumps([check_one(prog, harness) for prog in group])
+            with os.fdopen(w, "w") as f:
+                f.write(data)
+            status = 0
+        finally:
+            os._exit(status)
+    os.close(w)
+    with os.fdopen(r) as f:
+        data = f.read()
+    _, st = os.waitpid(pid, 0)
+    if st != 0 or not data:
+        return None
+    return json.loads(data)
+
+
 def main() -> int:
     job = json.loads(sys.stdin.read())
     rng = random.Random(job.get("junk_seed", 0))
@@ -73,6 +131,16 @@ def main() -> int:
     keep = [make_junk(rng, job.get("junk_import", 0))]
     from vp import harness  # imports pyanalyze (asserts it comes from VERIF_REPO)
 
+    probe = [m for m in job.get("probe_modules", []) if m in sys.modules]
+    group_out = []
+    if job.get("groups"):
+        # keep the collector from touching (and thereby copying) the pages shared with the images
+        for m in sorted({prog.get("mode", "tests") for group in job["groups"] for prog in group if "src" in prog}):
+            harness.constructor_kwargs(m)  # the (unused) Checker of each configuration is built once, before the images split
+        gc.collect()
+        gc.freeze()
+        group_out = [run_group_forked(group, harness) for group in job["groups"]]
+        gc.unfreeze()
     out = []
     for prog in job["programs"]:
         rs = []
@@ -81,18 +149,12 @@ def main() -> int:
                 keep.append(make_junk(rng, rng.randrange(0, job["junk_parse"] + 1)))
                 if len(keep) > 8:
                     del keep[1]
-            try:
-                with contextlib.redirect_stdout(io.StringIO()):
-                    res = harness.run(prog["src"], mode=prog.get("mode", "tests"))
-                rs.append(render(res))
-            except BaseException as e:  # noqa: BLE001  (import-time failure of the program itself)
-                if isinstance(e, (KeyboardInterrupt, SystemExit)):
-                    raise
-                rs.append([["<import-failed>", None, None, harness.normalise_text(f"{type(e).__name__}: {str(e)[:300]}")]])
+            rs.append(check_one(prog, harness))
         out.append(rs)
     sys.stdout.write(
         "\nC10RESULT "
-        + json.dumps({"renderings": out, "hashseed": os.environ.get("PYTHONHASHSEED"), "malloc": os.environ.get("PYTHONMALLOC")})
+        + json.dumps({"renderings": out, "hashseed": os.environ.get("PYTHONHASHSEED"), "malloc": os.environ.get("PYTHONMALLOC"),
+                      "group_renderings": group_out, "preloaded": probe})
         + "\n"
     )
     sys.stdout.flush()
